@@ -707,7 +707,7 @@ def reg_check(prop, tier, seed, work, replay):
                         assumptions=["the environment follows the regulator's instructions (tables release exactly the number asked for, seat the players handed out)",
                                      "the waiting queue is read through the verif snapshot hook", "projection drv_reg.go"])
     need = {"C09": ["C09.syncHandsOut", "C09.syncReleases", "C09.unknownTable", "C09.brokenTableNamed", "C09.unknownTableWithEliminations", "C09.afterDeadline", "C20.break"],
-            "C19": ["C19.request", "C19.initialAllocation", "C19.assign"],
+            "C19": ["C19.request", "C19.initialAllocation", "C19.assign", "C19.strayRelease", "C19.strayReleaseWhilePending"],
             "C20": ["C20.break", "C20.settleEpisode"]}[prop]
     missing = [a for a in need if cnt.get(a, 0) == 0]
     if rc == 0 and missing:
